@@ -264,6 +264,13 @@ func directStorm(ctx *core.Ctx, ci int, provName string, g int, coding string) {
 	}
 	checkLedger(ctx, ci, l, "direct:"+provName, doc)
 	ctx.Sig(fmt.Sprintf("direct|%s|g=%d|%s", provName, g, coding))
+	if ctx.WantSample() && g >= 4 {
+		h := l.History()
+		if len(h) > 8 {
+			h = h[:8]
+		}
+		ctx.Sample(map[string]interface{}{"storm": doc, "max_held": l.MaxHeld(), "first_ledger_events": h})
+	}
 }
 
 // ---- B: storms through the framework ----
@@ -498,6 +505,10 @@ func frameworkStorm(ctx *core.Ctx, ci int, provName string, inflight int, entry 
 	}
 	checkLedger(ctx, ci, l, where, doc)
 	ctx.Sig(fmt.Sprintf("framework|%s|n=%d|%s|%s", provName, inflight, entry, mode))
+	if ctx.WantSample() && inflight >= 16 {
+		a, r := l.Counts()
+		ctx.Sample(map[string]interface{}{"storm": doc, "max_held": l.MaxHeld(), "acquired": a, "released": r})
+	}
 }
 
 // directChurn: acquires overlap releases (no barrier): g goroutines x n iterations of acquire/use/release.
@@ -700,7 +711,7 @@ func c13(ctx *core.Ctx) {
 			if capacity > 0 {
 				sizes = append(sizes, capacity, capacity+1)
 			}
-			if rep%4 == 0 {
+			if rep%4 == 0 && (!ctx.Quick() || prov == "syncpool" || prov == "bounded2") {
 				sizes = append(sizes, 64)
 			}
 			for _, n := range sizes {
